@@ -51,7 +51,16 @@ def analyse_unit(r, tops, allowed_assumptions):
         for kind, ono in fi['lost_rewrites']:
             lost_by_file.setdefault(fi['file'], []).append((kind, ono))
     all_lost = [x for v in lost_by_file.values() for x in v]
-    fres = r['fres']
+    fres = dict(r['fres'])
+    # Verus names a method by the module of its type, the index by the module of the impl block: reconcile by `Type::name`
+    tails = {}
+    for k in r['fres']:
+        tails.setdefault('::'.join(k.split('::')[-2:]), []).append(k)
+    for f in fns:
+        if f.path not in fres:
+            c = tails.get('::'.join(f.path.split('::')[-2:]), [])
+            if len(c) == 1:
+                fres[f.path] = r['fres'][c[0]]
     for p in sorted(cone):
         f = by_path.get(p)
         if not f:
@@ -157,7 +166,16 @@ def vacuity_probe(r, tops_only, scratch, tops):
             if n.startswith(crate + '::'):
                 n = n[len(crate) + 2:]
             ok[n] = f.get('success')
-    survivors = [f.path for f in targets if ok.get(f.path, True)]
+    tails = {}
+    for k in ok:
+        tails.setdefault('::'.join(k.split('::')[-2:]), []).append(k)
+
+    def verdict(f):
+        if f.path in ok:
+            return ok[f.path]
+        c = tails.get('::'.join(f.path.split('::')[-2:]), [])
+        return ok[c[0]] if len(c) == 1 else True
+    survivors = [f.path for f in targets if verdict(f)]
     return len(targets), survivors
 
 
@@ -197,28 +215,46 @@ def check_property(pid, tier, repo, scratch, seed):
     failures, inconclusive = [], []
     checker_cmds = []
     vac = []
-    for unit, tops in pm.get('verus', {}).items():
+    from concurrent.futures import ThreadPoolExecutor
+
+    def unit_job(item):
+        unit, tops = item
         r = F.run_verus(unit, repo, scratch, seed)
-        checker_cmds.append(r['cmd'].replace(scratch, '$SCRATCH'))
         a = analyse_unit(r, tops, allowed)
         a['t_verus'] = r['t_verus']
         a['t_extract'] = r['t_extract']
         a['extract'] = r['extract']
-        units.append(a)
-        failures += [dict(x, unit=unit) for x in a['failures']]
-        inconclusive += [dict(x, unit=unit) for x in a['inconclusive']]
+        a['cmd'] = r['cmd'].replace(scratch, '$SCRATCH')
+        a['vac'] = None
         if not a['inconclusive'] and not a['failures'] and r['json'] is not None:
             n, surv = vacuity_probe(r, tier != 'thorough', scratch, tops)
-            vac.append({'unit': unit, 'probed': n, 'not_rejected': surv})
-            if surv:
-                inconclusive.append({'why': 'vacuous-precondition', 'unit': unit, 'detail': surv})
-    extra = []
-    for eng in pm.get('engines', []):
-        res = run_engine(eng, pid, tier, repo, scratch, seed)
-        extra.append(res)
-        failures += res.get('failures', [])
-        inconclusive += res.get('inconclusive', [])
-        checker_cmds += res.get('cmds', [])
+            a['vac'] = {'unit': unit, 'probed': n, 'not_rejected': surv}
+        return a
+
+    def engine_job(eng):
+        return run_engine(eng, pid, tier, repo, scratch, seed)
+
+    with ThreadPoolExecutor(max_workers=6) as ex:
+        ufut = [ex.submit(unit_job, it) for it in pm.get('verus', {}).items()]
+        efut = [ex.submit(engine_job, e) for e in pm.get('engines', [])]
+        for fu in ufut:
+            a = fu.result()
+            unit = a['unit']
+            checker_cmds.append(a['cmd'])
+            units.append(a)
+            failures += [dict(x, unit=unit) for x in a['failures']]
+            inconclusive += [dict(x, unit=unit) for x in a['inconclusive']]
+            if a['vac']:
+                vac.append(a['vac'])
+                if a['vac']['not_rejected']:
+                    inconclusive.append({'why': 'vacuous-precondition', 'unit': unit, 'detail': a['vac']['not_rejected']})
+        extra = []
+        for fu in efut:
+            res = fu.result()
+            extra.append(res)
+            failures += res.get('failures', [])
+            inconclusive += res.get('inconclusive', [])
+            checker_cmds += res.get('cmds', [])
     # ---- classification
     new_fail, known_hits = [], []
     for f in failures:
@@ -251,7 +287,8 @@ def check_property(pid, tier, repo, scratch, seed):
         'wall_s': round(wall, 2),
         'violations': len(new_fail),
     }
-    os.makedirs(os.path.join(VERIF, 'evidence'), exist_ok=True)
+    evdir = os.path.join(VERIF, 'evidence') if os.path.realpath(repo) == '/repo' else os.path.join(scratch + '.evidence')
+    os.makedirs(evdir, exist_ok=True)
     rc = 0
     for k, f in known_hits:
         print('KNOWN-FINDING: property=%s %s' % (pid, k.get('what', '')))
@@ -282,7 +319,7 @@ def check_property(pid, tier, repo, scratch, seed):
         if discharged != len(obligations) or len(obligations) == 0:
             print('INCONCLUSIVE property=%s obligations=%d discharged=%d' % (pid, len(obligations), discharged))
             rc = 2
-    with open(os.path.join(VERIF, 'evidence', pid + '.json'), 'w') as fh:
+    with open(os.path.join(evdir, pid + '.json'), 'w') as fh:
         json.dump(ev, fh, indent=1)
     if rc == 0:
         print('OK property=%s obligations=%d discharged=%d wall=%.1fs' % (pid, len(obligations), discharged, wall))
